@@ -132,6 +132,10 @@ def run(ctx):
                  timeout=3000)
     trees = {json.dumps(c['ts']): c for c in e2.printed_json('TREE')}
     trees = list(trees.values())
+    e3 = ctx.tlc('ExprGrammarExport', cfg('trees', 4 if quick else 7, ['ExportNear']), workers=1, name='export-near-misses',
+                 count=False, timeout=3000)
+    near = {json.dumps(c['ts']): c for c in e3.printed_json('NEAR') if c['ts'] and c['ts'][-1] != 'NL'}
+    near = list(near.values())
     rnd = random.Random(ctx.seed)
     wellformed = [c for c in strings if acceptable(c) != {'ERR'}]
     malformed = [c for c in strings if acceptable(c) == {'ERR'}]
@@ -142,6 +146,10 @@ def run(ctx):
             run_host(ctx, pool, host, wellformed + mal, 'token strings <= %d' % ls)
             tr = trees if not quick or host == 'integer' else rnd.sample(trees, min(len(trees), 1500))
             run_host(ctx, pool, host, tr, 'trees <= %d postfix tokens x layouts' % lt)
+        # near misses of well-formed expressions (one token deleted / inserted), in the bare and in a wrapping host
+        for host in ('integer', 'line-num', 'files'):
+            nm = near if not quick or host == 'integer' else rnd.sample(near, min(len(near), 2500))
+            run_host(ctx, pool, host, nm, 'near misses')
         # laziness
         lz = lazy_cases(trees)
         if quick:
@@ -179,7 +187,8 @@ def run(ctx):
                        'host, the malformed ones in the integer host - a sample of them in the quick tier and in the other hosts) and every tree '
                        'of <= %d postfix tokens in 6 layouts, in 6 host contexts (integer, file, text via num-lines, '
                        'files via num-files, line matcher inside parentheses, integer matcher inside line-num); '
-                       'laziness with logging run-primitives; non-trivial = distinct (host, string) that is not '
+                       'near misses (every rendering with one token deleted or one operator / parenthesis / line break '
+                       'inserted); laziness with logging run-primitives; non-trivial = distinct (host, string) that is not '
                        'plainly malformed' % (ls, lt))
     ctx.assumptions += ['a line break directly BEFORE an infix operator is unspecified by the manual: the joined value or '
                         'SYNTAX_ERROR are both accepted, nothing else',
